@@ -143,6 +143,8 @@ class Base:
 
     def classify(self, part, case, impl, model, judge, findings):
         import re
+        if len(case.split("\t")) == 4:
+            return None           # (a constructed parameter expansion, not a source text)
         src = unhx(case.split("\t")[0]).decode("utf-8", "replace")
         fid = None
         if re.search(r"\$\{#[#?-]\\\n\}", src):
